@@ -15,10 +15,15 @@ Res(n, r) == CASE r.t = "blk"   -> [c |-> FALSE, x |-> r.x]
                [] r.t = "const" -> [c |-> TRUE,  x |-> r.x]
 
 RefsOf(blk) == UNION {{blk.ins[i].refs[j] : j \in DOMAIN blk.ins[i].refs} : i \in DOMAIN blk.ins}
-InvSet(script) == {r.x : r \in {q \in UNION {RefsOf(script[b]) : b \in DOMAIN script} : q.t = "inv"}}
+(* extra = user blocks whose '_not_NAME' inverter is referenced only by name from outside *)
+(* the wiring (a filter control block such as IfOutput('_not_X'))                         *)
+InvSetX(script, extra) ==
+    {r.x : r \in {q \in UNION {RefsOf(script[b]) : b \in DOMAIN script} : q.t = "inv"}} \cup extra
+InvSet(script) == InvSetX(script, {})
 
 (* ---- declarative definition of the finalized structure ---- *)
-Blocks(script) == (1..N(script)) \cup {N(script) + x : x \in InvSet(script)}
+BlocksX(script, extra) == (1..N(script)) \cup {N(script) + x : x \in InvSetX(script, extra)}
+Blocks(script) == BlocksX(script, {})
 ResolvedIns(script, b) ==
     IF b <= N(script)
     THEN [i \in DOMAIN script[b].ins |->
@@ -28,7 +33,8 @@ ResolvedIns(script, b) ==
 IConn(script, b) ==
     LET ri == ResolvedIns(script, b) IN
     UNION {{ri[i].refs[j].x : j \in {k \in DOMAIN ri[i].refs : ~ri[i].refs[k].c}} : i \in DOMAIN ri}
-OConn(script, a) == {b \in Blocks(script) : a \in IConn(script, b)}
+OConnX(script, extra, a) == {b \in BlocksX(script, extra) : a \in IConn(script, b)}
+OConn(script, a) == OConnX(script, {}, a)
 
 (* ---- the code's two-pass procedure as a state machine ---- *)
 (* SecondPass = TRUE is the code (pass 2 over all Not blocks incl. the inverters created  *)
